@@ -232,6 +232,11 @@ def build_model(func: Func, mode: dict[str, Any]) -> Model:
                                 raise Unsupported(f"container initialised with {norm(init)[:60]}", st)
                         continue
                     s = eval_seq(val, env)
+                    if s is not None and tgt.id == m.worklist and not in_main:
+                        # the worklist *is* a sequence built before: its elements sit in that order, i.e. were put on the right in order
+                        rec = s.record if s.record is not None else ast.Name(id="<element>", ctx=ast.Load())
+                        sink.append(Put(tgt.id, "R", s, rec, s.targets, st))
+                        continue
                     if s is not None:
                         env[tgt.id] = s
                         continue
